@@ -24,6 +24,17 @@ impl<'s> TestDriver for Drv<'s> {
         self.calls += 1;
         let mut out = vec![];
         if self.mode == "none" { return Ok(out); }
+        if self.mode == "dupdrop" {
+            // first answer lists the first output twice; later answers list every output once
+            let outs: Vec<&Signal> = self.signals.iter().filter(|s| s.is_output()).collect();
+            if self.calls == 1 { if let Some(f) = outs.first() { out.push(OutputEntry { signal: f, value: OutputValue::Value(1) }); } }
+            for s in outs { out.push(OutputEntry { signal: s, value: OutputValue::Value(1) }); }
+            return Ok(out);
+        }
+        if self.mode.starts_with("fail ") {
+            let n: usize = self.mode[5..].parse().unwrap_or(1);
+            if self.calls == n { return Err(DrvErr); }
+        }
         for s in self.signals {
             if s.is_output() {
                 let value = if self.mode == "z" { OutputValue::Z } else if self.mode == "x" { OutputValue::X }
